@@ -268,8 +268,10 @@ def scan_queries(kind='db', config='base', tier_all=None):
                   'from_fwd': {'leaf', 'i4_3'}, 'from_rev': {'leaf', 'i4_3'}, 'range': {'leaf'}}
             if name not in ok[mode]:
                 continue
-            tier = 'quick' if (name == 'leaf' and mode != 'range') else 'thorough'
-            qs.append(Query('%s_%s%s' % (mode, name, sfx), u, '%s_%s' % (mode, name), unwind=10, flags=['--slice-formula'], loop_bounds=scan_lb(d, SCAN_N[name]), tier=T(tier),
+            # final thorough run (11233 s): every one of these except the root-leaf seeks ended in 'SAT checker ran out of memory' at the 40 GB cap or in a
+            # time-out, also when run alone - they are 'deep' (manual runs only), not part of a registered tier
+            tier = 'quick' if (name == 'leaf' and mode != 'range') else 'deep'
+            qs.append(Query('%s_%s%s' % (mode, name, sfx), u, '%s_%s' % (mode, name), unwind=10, flags=['--slice-formula'], loop_bounds=scan_lb(d, SCAN_N[name]), tier=tier if tier == 'deep' else T(tier),
                             about='%s over concrete tree "%s" with fully symbolic 64-bit bound(s)' % (what, name), bounds={'tree': name, 'symbolic': 'bound(s) 64-bit'},
                             timeout=3400, mem_gb=40, weight=1 if tier == 'quick' else 3))
     return qs
@@ -334,7 +336,7 @@ def c16():
         qs += tree_queries('db', cfg, quick_set=QT if cfg != 'ssedebug' else set())
     for cfg in ('debug', 'sse'):
         for q in scan_queries('db', cfg):
-            if not q.entry.startswith('scan_'):
+            if not q.entry.startswith('scan_') and q.tier != 'deep':
                 q.tier = 'thorough'
             qs.append(q)
     # assertion-enabled OLC index: operation sequences that end with every node handed back, so that the library's debug accounting
